@@ -260,6 +260,17 @@ def assigned_names(stmts):
     return names, mutated, lenmut
 
 
+class _LiveList:
+    def __init__(self, plist):
+        self.plist = plist
+
+    def __iter__(self):
+        i = 0
+        while i < len(self.plist.items):
+            yield self.plist.items[i]
+            i += 1
+
+
 class Interp:
     def __init__(self, path, globals_, hooks=None, ftext=None):
         self.path = path
@@ -544,7 +555,12 @@ class Interp:
         it = self.eval(node.iter, env)
         if spec is not None:
             return self.loop_with_spec(node, env, spec, ordn, kind='for', iterable=it)
-        items = self.iterate_concrete(it, what="for loop (line %d) needs an invariant" % node.lineno)
+        if isinstance(it, PObj) and '__iter__' in it.methods:
+            it = self.call(it.methods['__iter__'], [it], {})
+        if isinstance(it, PList):
+            items = _LiveList(it)          # CPython iterates a list by index over the LIVE list
+        else:
+            items = self.iterate_concrete(it, what="for loop (line %d) needs an invariant" % node.lineno)
         for x in items:
             self.assign(node.target, x, env)
             try:
